@@ -758,7 +758,7 @@ def run_named_mps(case):
 @st.composite
 def s_named_mpo(draw, tier):
     which = draw(st.sampled_from(["identity", "identity_sites", "zeros", "identity_like", "zeros_like", "product", "rand", "rand",
-                                  "rand_herm"]))
+                                  "rand_herm", "rand_state_method"]))
     L = draw(st.integers(1, 5))
     ph = draw(st.sampled_from([1, 2, 2, 3]))
     while ph**L > 36:
@@ -803,11 +803,36 @@ def run_named_mpo(case):
         if L < 2:
             raise Reject("one-site identity is refused")
         base = qtn.MPO_rand(L, case["bond"], phys_dim=ph, dtype=dt, cyclic=cyc, seed=case["seed"] % 2**31, **ids)
-        X = qtn.MPO_identity_like(base) if w == "identity_like" else qtn.MPO_zeros_like(base)
+        if w == "identity_like":
+            X = base.identity() if case["herm"] else qtn.MPO_identity_like(base)
+        else:
+            X = qtn.MPO_zeros_like(base)
         if (X.upper_ind_id, X.lower_ind_id, X.site_tag_id, bool(X.cyclic), int(X.L)) != \
                 (base.upper_ind_id, base.lower_ind_id, base.site_tag_id, bool(base.cyclic), int(base.L)):
             raise Violation("like-structure", **info)
         ref = np.eye(D) if w == "identity_like" else np.zeros((D, D))
+    elif w == "rand_state_method":
+        # MatrixProductOperator.rand_state: "a random vector matching this MPO" (site-dependent dims allowed)
+        phl = list(case["physl"])
+        while prod(phl) > 36:
+            phl[int(np.argmax(phl))] -= 1
+        base = build_chain({"op": True, "L": L, "phys": phl, "bonds": [case["bond"]] * L, "cyclic": cyc, "dtype": dt,
+                            "seed": case["seed"], "kind": "gauss"})
+        psi = base.rand_state(case["bond"], seed=case["seed"] % 2**31)
+        if type(psi).__name__ != "MatrixProductState" or int(psi.L) != L or bool(psi.cyclic) != bool(cyc):
+            raise Violation("rand_state-structure", **info)
+        if [int(psi.phys_dim(i)) for i in range(L)] != phl:
+            raise Violation("rand_state-phys", got=[int(psi.phys_dim(i)) for i in range(L)], want=phl, **info)
+        check_dtype(psi, dt, **info)
+        v = dense_vec(psi, sites, **info)
+        e = abs(float(np.linalg.norm(v)) - 1.0)
+        if not e <= (INV32 if single(dt) else INV64):
+            raise Violation("rand-not-normalized", norm=float(np.linalg.norm(v)), **info)
+        # the operator can act on it
+        r = base.apply(psi)
+        MA = dense_op(base, sites)
+        e = max(e, close(dense_vec(r, sites, **info), MA @ v, tol * 10, float(np.linalg.norm(MA)), **info))
+        return {"nt": L >= 3 and len(set(phl)) > 1, "cls": cls + (["sitedep-phys"] if len(set(phl)) > 1 else []), "err": e}
     elif w == "product":
         phl = list(case["physl"])
         while prod(phl) > 36:
@@ -1842,7 +1867,10 @@ def run_fit_sum(case):
     got = dense_any(r, sites, **info)
     want = ref / nref if case["normalize"] else ref
     e = 0.0
-    if case["cap"] == "exact":
+    # (2-site sweeps enlarge a bond only through the local split, i.e. by at most the neighbouring physical dimension
+    #  per sweep: a site of dimension 1 blocks the growth from a low-bond guess, so exactness is not claimed there)
+    blocked = case["bsz"] == 2 and 1 in terms[0]["x"]["phys"]
+    if case["cap"] == "exact" and not blocked:
         e = float(np.linalg.norm(got - want)) / (1.0 if case["normalize"] else mag)
         if not e <= INV64:
             raise Violation("not-exact", err=e, **info)
